@@ -312,7 +312,15 @@ func (p *vfPair) writer(s *UDPSession, end int, sizes []int, accepted *[]byte) {
 		}
 		b := vfPayload(end, n, off)
 		off += n
-		w, err := s.Write(b)
+		var w int
+		var err error
+		if p.cfg.Stream && (i+end)%2 == 1 {
+			// vector write: the same bytes as three uneven pieces and an empty one (stream mode: boundaries do not matter)
+			k1, k2 := n/3, n-n/4
+			w, err = s.WriteBuffers([][]byte{b[:k1], {}, b[k1:k2], b[k2:]})
+		} else {
+			w, err = s.Write(b)
+		}
 		if err != nil {
 			p.bad("C01:write-error", "Write of %d bytes failed: %v", n, err)
 			return
